@@ -30,6 +30,10 @@ def run(ck):
         for m in ("block", "try"):
             for r in ("ok", "EWOULDBLOCK", "EINTR", "EBADF", "ENOLCK", "EINVAL"):
                 h.append("flags %s %s %s" % (op, m, r)); ck.count_distinct(h[-1])
+    for m in ("block", "try"):
+        for k in (0, 2, 3, 17):
+            h.append("flags lock %s EINTR %d" % (m, k)); ck.count_distinct(h[-1])   # interrupted k times, then granted
+    h.append("flags unlock block ENOLCK 2"); ck.count_distinct(h[-1])
     hist.append(h)
     for _ in range(200 if ck.tier == "quick" else 3000):
         h = ["reset"]
@@ -44,6 +48,7 @@ def run(ck):
         for m in ("block", "try"):
             c.append("contend %d %d %s" % (np_, 200, m))
     hist.append(c)
-    hist.append(["dirtyunlock try", "dirtyunlock block"])   # the holder's buffered data cannot be flushed when it unlocks
+    hist.append(["dirtyunlock try", "dirtyunlock block"])
+    hist.append(["sigwait 1", "sigwait 5"] + ([] if ck.tier == "quick" else ["sigwait 40"]))   # a BLOCK waiter hit by signals still waits for the lock   # the holder's buffered data cannot be flushed when it unlocks
     ck.sample(hist[0][:3]); ck.sample(hist[1][:8]); ck.sample(c[:1])
     ck.kcompare("k", exe, "c19", hist, keep_head=0, impl_args=[scratch], what="zix_file_lock/unlock differ from the model or from the specification on real handles/processes")
